@@ -4,6 +4,7 @@ package c01
 
 import (
 	"fmt"
+	kerrors "k8s.io/apimachinery/pkg/api/errors"
 	"testing"
 
 	"github.com/crossplane/crossplane/verifsim/kit"
@@ -31,13 +32,39 @@ func (prop) Describe() runner.Description {
 
 func (prop) Run(t *testing.T, s *sim.Sim, res *runner.Result) {
 	xrworld.Run(s, res, xrworld.Hooks{
-		Params: xrworld.DrawParams{},
-		Faults: []sim.Outcome{sim.ErrBefore, sim.ErrAfter, sim.Conflict, sim.CrashBefore, sim.CrashAfter},
+		Opts: func(tp *sim.Tape) xrworld.Opts {
+			lag := tp.Next(2) == 1
+			return xrworld.Opts{LagComposed: lag, LagManual: lag && tp.Next(2) == 1}
+		},
+		// Strict: templates with a required patch whose source the XR may lack (a
+		// template that stops rendering and renders again later), and a composed
+		// kind that rejects some applies
+		Params: xrworld.DrawParams{Strict: true},
+		Faults: []sim.Outcome{sim.ErrBefore, sim.ErrAfter, sim.Conflict, sim.CrashBefore, sim.CrashAfter, sim.Stale},
 		Observe: func(w *xrworld.W, wl *xrworld.Workload) {
 			observe(w)
 		},
 		Final: func(w *xrworld.W, wl *xrworld.Workload, quiet bool) {
 			if !quiet {
+				// a template that cannot render (required patch source missing) has a
+				// fresh name generated and recorded at every reconcile: no fixpoint,
+				// and not what this property is about
+				for _, tm := range wl.Templates {
+					for _, x := range wl.XRs {
+						if !wl.Pipeline && tm.Enabled && tm.RequireMode && x.Mode == "" {
+							w.S.Probe("no-quiescence-while-a-template-cannot-render")
+							return
+						}
+					}
+				}
+				// likewise a desired resource the API server keeps rejecting as invalid
+				// is never created, so a new name is generated for it every time
+				for i := len(w.Store.Log) - 1; i >= 0 && i > len(w.Store.Log)-400; i-- {
+					if e := w.Store.Log[i]; !e.Read && e.Err != nil && kerrors.IsInvalid(e.Err) {
+						w.S.Probe("no-quiescence-while-a-resource-is-rejected-as-invalid")
+						return
+					}
+				}
 				// I3: once converged, reconciling again changes no object. With no
 				// faults and no edits the world must reach a fixpoint.
 				w.S.Violate("C01/not-idempotent", "after faults stopped, repeated fault-free reconciles kept changing objects (no fixpoint within the heal budget)")
